@@ -33,7 +33,7 @@ use std::io::{BufRead, Write};
 /// Runs the implementation for one input vector.
 pub fn exec(tag: i64, inp: &[i64]) -> Vec<i64> {
     match tag {
-        10 | 11 | 12 | 13 | 14 | 20 | 30 | 60 | 61 | 62 | 63 | 64 => sm::exec(tag, inp),
+        10 | 11 | 12 | 13 | 14 | 15 | 20 | 30 | 60 | 61 | 62 | 63 | 64 => sm::exec(tag, inp),
         40 | 41 | 42 | 43 | 50 | 51 | 52 => newtypes::exec(tag, inp),
         70 | 71 | 80 => cc14::exec(tag, inp),
         90 | 100 | 101 | 110 => nrpn::exec(tag, inp),
@@ -42,7 +42,7 @@ pub fn exec(tag: i64, inp: &[i64]) -> Vec<i64> {
         #[cfg(feature = "cfg_std")]
         150 | 160 | 161 | 162 | 170 => scanners::exec(tag, inp),
         #[cfg(feature = "cfg_serde")]
-        190 | 191 => serde_t::exec(tag, inp),
+        190 | 191 | 192 => serde_t::exec(tag, inp),
         _ => vec![-97],
     }
 }
